@@ -42,7 +42,7 @@ CHECKS = {
   "runtime monitoring: execution vs reference model (precedence) and exhaustive collision search over the real naming function"),
  "C06": ("exploration",
   "held on every sequence of directive kinds up to the length bound with every placement of one parenthesis pair / lone parenthesis (exhaustive under the bound) and on random longer sequences: the real directive tree and rejection class equal those of a reference walk written from the statement; also after MACRO/PASTE expansion",
-  "trusts the repository's public admissibility table (tested cell by cell by its own suite) and the verif-tagged tree accessors",
+  "trusts the frozen copy of the language's admissibility table kept in the harness (generated from the pinned tree; the library's live table is compared with it cell by cell) and the verif-tagged tree accessors",
   "runtime monitoring: execution vs a small executable reference model over hooked state (directive trees), bounded-exhaustive enumeration"),
  "C16": ("exploration",
   "held on the observed schedules: race-detector-instrumented workers run parallel parses, concurrent reads of one catalog, first-use races in fresh processes, and recorded collection histories checked for linearizability (porcupine) plus quiescent-state checks; interleavings are sampled, the evidence counts overlapping histories",
@@ -57,7 +57,7 @@ CHECKS = {
   "trusts the renderer to apply only the rewritings the statement lists at eligible positions (it renders from the model, it never re-parses)",
   "runtime monitoring: metamorphic relation between two executions of the real code (byte equality of verdict and catalog)"),
  "C07": ("exploration",
-  "held on the observed twins: a model rendered with parts moved into (nested) macros and the same model rendered in place give the same verdict and byte-identical catalog; unused macros change nothing; every cyclic paste digraph up to the bound, undefined and duplicate macros are rejected with a diagnostic within the paste-depth budget",
+  "held on the observed twins: if a model rendered with parts moved into (nested) macros is accepted, the same model rendered in place is accepted with a byte-identical catalog (also for directive-kind skeletons with the body substituted textually); unused macro definitions, wherever a top-level directive may stand, change nothing; every cyclic paste digraph up to the bound, undefined and duplicate macros are rejected with a diagnostic within the paste-depth budget",
   "trusts the renderer's paste extraction (one macro per run of sibling elements a MACRO admits) and the verif-tagged paste-depth counter",
   "runtime monitoring: metamorphic relation between two executions of the real code, exhaustive enumeration of small paste digraphs"),
  "C08": ("exploration",
